@@ -434,7 +434,7 @@ func (g *Gen) payload() []byte {
 		if g.known {
 			return []byte(g.pick("I'm here", "say \"x\" and 'y'", "f(x) = 'a'", "a+b", "1 + 1")) // N07 / K40
 		}
-		return []byte("plain text without specials")
+		return []byte(g.pick("plain text without specials", "I'm here", "say \"x\" and 'y'", "f(x) = 'a'")) // (N07 = K87 repaired: quotes in the payload)
 	case 6:
 		return []byte(strings.Repeat(g.pick("ab", "<p>", "%", " ", "x y"), 1+g.r.Intn(12)))
 	}
@@ -487,9 +487,6 @@ func (g *Gen) dataURL() string {
 	}
 	if g.r.Bool() {
 		q := g.pick("\"", "'")
-		if !g.known && strings.IndexByte(string(p), '\'') >= 0 {
-			q = "\"" // N07: payload quote that equals the url() delimiter
-		}
 		return fn + "(" + q + uri + q + ")"
 	}
 	return fn + "(" + uri + ")"
